@@ -125,9 +125,65 @@ def judge(case):
             if np.abs(np.array(uni.atoms.positions, dtype=float) - frames[k]).max() > 0:
                 msgs.append(f"re-reading frame {k} out of order gives different coordinates")
                 break
+        if not msgs and case.get("writer_ops"):
+            msgs += judge_writer(case, d, p1, p2, arr, frames, names)
         return msgs
     finally:
         shutil.rmtree(d, ignore_errors=True)
+
+
+def judge_writer(case, d, p1, p2, arr, frames, names):
+    """The writer path (molgri/io.py): a PtWriter built from the two files and the saved array, driven through a history
+    of its public calls. Whatever was called before, the pseudotrajectory it offers / writes is the one judged above."""
+    import os
+    import MDAnalysis as mda
+    from molgri.io import PtWriter
+    K = len(arr)
+    frames = np.array(frames)
+    path_grid = os.path.join(d, "grid.npy")
+    np.save(path_grid, arr)
+    msgs = []
+
+    def compare(label, got, tol):
+        got = np.array(got, dtype=float)
+        if got.shape != frames.shape:
+            msgs.append(f"writer, {label}: frames of shape {got.shape}, expected {frames.shape}")
+            return
+        err = np.abs(got - frames).max(axis=(1, 2))
+        if err.max() > tol:
+            k = int(np.argmax(err > tol))
+            msgs.append(f"writer, {label}: frame {k} deviates by {err[k]:.4g} A from the rigid placement of row {k} "
+                        f"(history {case['writer_ops']})")
+
+    try:
+        with quiet():
+            w = PtWriter(p1, p2, 200.0, path_grid)
+            for step, op in enumerate(case["writer_ops"]):
+                if msgs:
+                    break
+                if op[0] == "structure":
+                    w.write_structure(float(op[1]), os.path.join(d, f"start{step}.gro"))
+                elif op[0] == "universe":
+                    compare(f"pt_universe at step {step}", [np.array(ts.positions) for ts in w.pt_universe.trajectory], ATOL)
+                    if list(w.pt_universe.atoms.names) != names:
+                        msgs.append(f"writer: atom names {list(w.pt_universe.atoms.names)}")
+                elif op[0] == "files":
+                    pt_path, st_path = os.path.join(d, f"pt{step}.xyz"), os.path.join(d, f"pt{step}.gro")
+                    w.write_full_pt(pt_path, st_path)
+                    u = mda.Universe(st_path, pt_path)
+                    compare(f"written trajectory at step {step}", [np.array(ts.positions) for ts in u.trajectory], 2e-3)
+                    first = mda.Universe(st_path)
+                    if np.abs(np.array(first.atoms.positions, dtype=float) - frames[0]).max() > 1.1e-2:
+                        msgs.append(f"writer: the structure file written at step {step} is not frame 0 "
+                                    f"(history {case['writer_ops']})")
+                elif op[0] == "directory":
+                    paths = [os.path.join(d, f"dir{step}_{k}.xyz") for k in range(K)]
+                    w.write_full_pt_in_directory(paths, os.path.join(d, f"dir{step}.gro"))
+                    compare(f"single-frame files at step {step}",
+                            [np.array(mda.Universe(pth).atoms.positions) for pth in paths], 2e-3)
+    except Exception as e:
+        msgs.append(f"writer history {case['writer_ops']}: exception {type(e).__name__}: {e}")
+    return msgs
 
 
 def _shard(arg):
@@ -221,9 +277,15 @@ def _shard(arg):
         return {"kind": "array", "positions": pos, "quats": quats, "dtype": form}
 
     def builder(res, fail):
-        @given(molecule(), molecule(), grids(), st.lists(st.integers(0, 100), max_size=6))
-        def test(m1, m2, grid, read_order):
-            case = {"m1": m1, "m2": m2, "grid": grid, "read_order": read_order}
+        writer_op = st.one_of(st.tuples(st.just("structure"), st.sampled_from([0.0, 3.0, 5.0, 12.5, -4.0])),
+                              st.tuples(st.just("universe")), st.tuples(st.just("files")), st.tuples(st.just("directory")))
+        structure_op = st.tuples(st.just("structure"), st.sampled_from([3.0, 5.0, 12.5, -4.0]))
+        writer_ops = st.one_of(st.just([]), st.lists(writer_op, min_size=1, max_size=4),
+                               st.tuples(structure_op, st.lists(writer_op, min_size=1, max_size=3)).map(lambda t: [t[0]] + t[1]))
+
+        @given(molecule(), molecule(), grids(), st.lists(st.integers(0, 100), max_size=6), writer_ops)
+        def test(m1, m2, grid, read_order, ops):
+            case = {"m1": m1, "m2": m2, "grid": grid, "read_order": read_order, "writer_ops": [list(o) for o in ops]}
             msgs = judge(case)
             sc = shape_class(m2["coords"])
             arr = grid_array_of(case)
@@ -232,7 +294,9 @@ def _shard(arg):
             small = bool(((angles > 1e-5) & (angles < 1e-2)).any()) or bool(((2 * np.pi - angles > 1e-5) & (2 * np.pi - angles < 1e-2)).any())
             res.case(sample=case, nontrivial=nontrivial, key=case,
                      classes=[f"m2={sc}", f"grid={grid['kind']}" + ("_blocks" if grid.get("layout") == "blocks" else ""), f"fmt={m1['fmt']}+{m2['fmt']}"]
-                     + (["has_small_nonzero_rotation(1e-5..1e-2 rad)"] if small else []))
+                     + (["has_small_nonzero_rotation(1e-5..1e-2 rad)"] if small else [])
+                     + (["writer_history"] if ops else [])
+                     + (["writer_structure_before_pt"] if ops and ops[0][0] == "structure" and len(ops) > 1 else []))
             if msgs:
                 fail(case, "; ".join(msgs[:3]))
         return test
@@ -251,7 +315,8 @@ def run(tier):
     rule = ("Hypothesis: molecule 1 and 2 with 1..12 atoms (H, C, N, O, S; single atom / collinear / planar / generic; coordinates "
             "with 2 decimals in [-8, 8] A, off-centre), written as .xyz or .gro and read through OneMoleculeReader; grid = a real "
             "full-grid array (16 small specifications) or 1..40 arbitrary rows, or block-structured arrays (2..5 positions x permuted subsets of 2..6 orientations) (positions in [-40, 40] A, normalised integer "
-            "quaternions); a random frame read order. Non-trivial = molecule 2 with >=3 non-collinear atoms and some rotation "
+            "quaternions); a random frame read order; for about half of the cases a history of 1..4 PtWriter calls (write_structure(d), "
+            "pt_universe, write_full_pt, write_full_pt_in_directory) on a writer built from the same files and the saved array. Non-trivial = molecule 2 with >=3 non-collinear atoms and some rotation "
             "angle > 0.1 rad; distinct = distinct input.")
     return res, rule, {"assumptions": ["tolerance 2e-4 A (float32 coordinates inside MDAnalysis)",
                                        "masses and file parsing are MDAnalysis' (trusted base)"]}
